@@ -395,8 +395,9 @@ Definition orig_cfg : cfg :=
 (* ------------------------------------------------------------------ observations *)
 Inductive outcome :=
   OOk (ir : option N) (graph : bool) (nopset nmeta : N) (pname pver : bool)
-| OErr (e : err) | OPanic | OTimeout | OAbort.
-Inductive sniff := SBool (b : bool) | SPanic | STimeout | SAbort.
+| OErr (e : err) | OPanic | OTimeout | OAbort
+| ONotRun.     (* the harness' timeout budget was used up by earlier hangs: not observed *)
+Inductive sniff := SBool (b : bool) | SPanic | STimeout | SAbort | SNotRun.
 
 Definition count (k : N) (l : list (N * N)) : N := N.of_nat (length (filter (fun x => fst x =? k) l)).
 Definition has (k : N) (l : list (N * N)) : bool := existsb (fun x => fst x =? k) l.
@@ -481,8 +482,15 @@ Record case := {
 (* lazy conjunction: vm_compute is call-by-value, [andb] would evaluate both decodes *)
 Notation "a &&& b" := (if a then b else false) (at level 40, left associativity).
 
+Definition observed (k : case) : bool :=
+  match c_buf k, c_file k, c_sniff k with
+  | ONotRun, _, _ | _, ONotRun, _ | _, _, SNotRun => false
+  | _, _, _ => true
+  end.
+
 Definition agree (k : case) : bool :=
   let e := harness_env (c_debug k) in
+  if negb (observed k) then true else
   outcome_eqb (c_file k) (c_buf k)
   &&& outcome_eqb (model_outcome pinned_cfg e (c_input k)) (c_buf k)
   &&& sniff_eqb (model_sniff pinned_cfg e (c_input k)) (c_sniff k).
@@ -494,6 +502,7 @@ Definition is_ok (o : outcome) : bool := match o with OOk _ _ _ _ _ _ => true | 
    crash), and a decode that met a length-delimited field longer than the remaining input did
    not succeed *)
 Definition prop_ok (k : case) : bool :=
+  if negb (observed k) then true else
   returns (c_buf k) &&& returns (c_file k)
   &&& (match c_sniff k with SBool _ => true | _ => false end)
   &&& (if is_ok (c_buf k) || is_ok (c_file k)
